@@ -25,6 +25,7 @@ class Scenario:
     self.elem_typ = {}         # model name -> element typ of a deque / key typ of a dict
     self.sym_inputs = {}       # state variable -> (lo, hi): symbolic initial value
     self.global_locks = []     # (module name, global name, model name) of module-level locks met while translating
+    self.pyobjs = []           # composite python objects that may be stored in modelled lists (referred to by their number)
     self.value_typ = {}        # dict model name -> typ of its values (e.g. ('listref', <MLists>))
     self.record_pyclass = {}   # RecordClass name -> the python class its records stand for (type(x) == Class)
     self.stored_attrs = {}     # (model name, attribute) -> value stored into an ignored attribute of a model object (thread.name)
